@@ -134,6 +134,12 @@ fn w1_generic<S: HardGeom, R: Rng>(shape: S, group: &str, spec: &ShapeSpec, mut 
 /// W2: bisect the cell length to the oracle's first contact, then ask the library just
 /// inside the overlapping side
 fn w2_generic<S: HardGeom, R: Rng>(shape: S, group: &str, spec: &ShapeSpec, p0: Params, _rng: &mut R, st: &mut Stats) {
+    let _ = w2_core(shape, group, spec, p0, "W2", st);
+}
+
+/// the W2 procedure on one configuration; returns the oracle's first contact (which pair of
+/// copies, which lattice image)
+fn w2_core<S: HardGeom>(shape: S, group: &str, spec: &ShapeSpec, p0: Params, label: &str, st: &mut Stats) -> Option<Contact> {
     let oshape = shape.oshape();
     let r = oshape.enclosing_radius();
     let copies = groups::group(group).unwrap().ops.len() as f64;
@@ -143,7 +149,7 @@ fn w2_generic<S: HardGeom, R: Rng>(shape: S, group: &str, spec: &ShapeSpec, p0: 
         Ok(s) => s,
         Err(e) => {
             st.inconclusive.push(e);
-            return;
+            return None;
         }
     };
     // one set of handles for the whole search: the length handle's upper bound stays large
@@ -161,7 +167,7 @@ fn w2_generic<S: HardGeom, R: Rng>(shape: S, group: &str, spec: &ShapeSpec, p0: 
     }
     if depth_at(&mut basis, hi).depth > 0. {
         st.count("w2_bracket_failed");
-        return;
+        return None;
     }
     // walk down geometrically until the first overlap (never visits tiny, image-dense cells)
     let mut lo = hi;
@@ -176,7 +182,7 @@ fn w2_generic<S: HardGeom, R: Rng>(shape: S, group: &str, spec: &ShapeSpec, p0: 
     }
     if !found {
         st.count("w2_bracket_failed");
-        return;
+        return None;
     }
     for _ in 0..30 {
         let mid = 0.5 * (lo + hi);
@@ -188,22 +194,83 @@ fn w2_generic<S: HardGeom, R: Rng>(shape: S, group: &str, spec: &ShapeSpec, p0: 
     }
     let lstar = hi;
     let first = depth_at(&mut basis, lo);
-    st.count(&format!("w2_first_contact_lattice_index[{}][{}]", group, first.lattice_index().min(4)));
+    st.count(&format!("{}_first_contact_lattice_index[{}][{}]", label.to_lowercase(), group, first.lattice_index().min(4)));
     for eps in [1e-5, 1e-3, 1e-2, 3e-2, 0.1, 0.2].iter() {
         let len = lstar * (1. - eps);
         basis[0].set_value(len);
         let mut pp = p0;
         pp.len = basis[0].get_value();
-        let case = Case { group: group.to_string(), shape: spec.clone(), params: pp, workload: format!("W2-contact-minus-{}", eps) };
+        let case = Case { group: group.to_string(), shape: spec.clone(), params: pp, workload: format!("{}-contact-minus-{}", label, eps) };
         judge(&state, &case, st);
     }
     // and just outside (expected to score; feeds the non-trivial count and C02)
     basis[0].set_value(lstar * (1. + 1e-6));
     let mut pp = p0;
     pp.len = basis[0].get_value();
-    let case = Case { group: group.to_string(), shape: spec.clone(), params: pp, workload: "W2-contact-plus-1e-6".into() };
+    let case = Case { group: group.to_string(), shape: spec.clone(), params: pp, workload: format!("{}-contact-plus-1e-6", label) };
     judge(&state, &case, st);
+    Some(first)
 }
+
+/// W7: a walk over configurations that equalises how often each *class* of first contact is
+/// visited - which ordered pair of copies, which lattice image (n, m).  Uniform sampling sees
+/// the corner images of the second shell once in 1e8 configurations; the walk is accepted
+/// towards classes it has seen less often (flat-histogram sampling), so that every reachable
+/// class gets its share of W2 probes.
+fn w7_walk<R: Rng>(rng: &mut R, st: &mut Stats, steps: u64) {
+    use std::collections::HashMap;
+    let group = ["p2", "p2", "p1", "p2gg", "p2mg"][rng.gen_range(0, 5)];
+    let spec = match rng.gen_range(0, 6) {
+        0 => libx::gen::trimer(rng),
+        1 => ShapeSpec::Circle,
+        _ => ShapeSpec::Polygon { sides: [3, 3, 3, 4, 5, 6][rng.gen_range(0, 6)] },
+    };
+    let oblique = libx::is_oblique(group);
+    let (_, _, mut cur) = rand_config(rng, true);
+    let mut cur_class: Option<(usize, usize, i64, i64)> = None;
+    let mut hist: HashMap<(usize, usize, i64, i64), u64> = HashMap::new();
+    let clampf = |v: f64, lo: f64, hi: f64| v.max(lo).min(hi);
+    for _ in 0..steps {
+        let mut q = cur;
+        for _ in 0..rng.gen_range(1, 3) {
+            let s = [0.003, 0.03, 0.3][rng.gen_range(0, 3)];
+            let d = rng.gen_range(-1., 1.) * s;
+            match rng.gen_range(0, 5) {
+                0 => q.ratio = clampf(q.ratio + d, 0.1, 1.),
+                1 => q.angle = if oblique { clampf(q.angle + d, PI / 6., PI / 2.) } else { q.angle },
+                2 => q.x = clampf(q.x + d, -0.5, 0.5),
+                3 => q.y = clampf(q.y + d, -0.5, 0.5),
+                _ => q.phi = (q.phi + 6. * d).rem_euclid(2. * PI),
+            }
+        }
+        let first = if let Some(sh) = spec.line() {
+            w2_core(sh, group, &spec, q, "W7", st)
+        } else if let Some(sh) = spec.mol() {
+            w2_core(sh, group, &spec, q, "W7", st)
+        } else {
+            None
+        };
+        if let Some(f) = first {
+            let c = (f.i, f.j, f.n, f.m);
+            let hc = *hist.get(&c).unwrap_or(&0);
+            let hcur = cur_class.and_then(|k| hist.get(&k).copied()).unwrap_or(u64::MAX);
+            *hist.entry(c).or_insert(0) += 1;
+            if f.lattice_index() >= 2 {
+                st.count(&format!("w7_first_contact_image[{}][{},{}]{}", group, f.n, f.m, if f.i < f.j { "[i<j]" } else { "[i=j]" }));
+            }
+            // towards classes seen less often, and towards far images and shell corners (where an
+            // image search is most likely to stop short)
+            let weight = |k: (usize, usize, i64, i64)| 8f64.powi(k.2.abs().max(k.3.abs()).min(4) as i32) * if k.2.abs() == k.3.abs() && k.2 != 0 { 8. } else { 1. } * 4f64.powi(k.2.abs().min(k.3.abs()).min(3) as i32);
+            let wcur = cur_class.map(weight).unwrap_or(0.);
+            if rng.gen::<f64>() < (weight(c) / wcur.max(1e-300)) * (hcur as f64 + 1.) / (hc as f64 + 1.) {
+                cur = q;
+                cur_class = Some(c);
+            }
+        }
+    }
+    st.add("w7_distinct_first_contact_classes_seen_by_walks", hist.len() as u64);
+}
+
 
 fn dispatch_w<R: Rng>(which: u8, rng: &mut R, st: &mut Stats) {
     let focus = which == 2;
@@ -408,7 +475,7 @@ pub fn gen_history<R: Rng>(rng: &mut R) -> History {
 }
 
 pub fn run(ctx: &Ctx) {
-    ctx.set_rule("W1 uniform states (7 groups x polygons 3..12 / circle / trimers x cells x sites incl. exact faces and special positions, cell area 0.8-2.5 x the copies' area); W2 boundary-focused: per configuration (copies 1e-5..1e-1 from cell faces, ratio down to 0.1, angle down to pi/6) the cell length is bisected to the oracle's first contact L* and the library is asked at L*(1-eps), eps in {1e-5,1e-3,1e-2,3e-2,0.1,0.2}, and at L*(1+1e-6); W3 real three-stage optimiser pipelines (hill-climb and CLI-shaped) observed through Spy: every stage result and a bounded sample of scored evaluations; W4 JSON files written by the CLI; W5 state objects that live through histories of 3-13 edits (several parameters at once - set, rescaled by powers of two, negated, nudged, exchanged, reset -, shape or cell replaced, clone(), JSON round trip), judged after every edit. Oracle: exhaustive image enumeration from cell heights + SAT/disc depth; event = library score defined while depth > 1e-9 (re-confirmed by polygon clipping / lens point). Non-trivial = scored states within 5% R of contact, and overlapping states (where a miss is possible); distinct by quantised parameters");
+    ctx.set_rule("W1 uniform states (7 groups x polygons 3..12 / circle / trimers x cells x sites incl. exact faces and special positions, cell area 0.8-2.5 x the copies' area); W2 boundary-focused: per configuration (copies 1e-5..1e-1 from cell faces, ratio down to 0.1, angle down to pi/6) the cell length is bisected to the oracle's first contact L* and the library is asked at L*(1-eps), eps in {1e-5,1e-3,1e-2,3e-2,0.1,0.2}, and at L*(1+1e-6); W3 real three-stage optimiser pipelines (hill-climb and CLI-shaped) observed through Spy: every stage result and a bounded sample of scored evaluations; W4 JSON files written by the CLI; W7 flat-histogram walks: the W2 procedure along Markov chains over (ratio, angle, site, orientation) that are accepted towards first-contact classes - ordered pair of copies x lattice image (n,m) - visited less often, so that rare images (corners of the second and third shell) get their share of probes; W5 state objects that live through histories of 3-13 edits (several parameters at once - set, rescaled by powers of two, negated, nudged, exchanged, reset -, shape or cell replaced, clone(), JSON round trip), judged after every edit. Oracle: exhaustive image enumeration from cell heights + SAT/disc depth; event = library score defined while depth > 1e-9 (re-confirmed by polygon clipping / lens point). Non-trivial = scored states within 5% R of contact, and overlapping states (where a miss is possible); distinct by quantised parameters");
     ctx.assume("convex regular polygons and unions of discs; placements are taken from cartesian_positions() (their correctness is C04/C14/C15)");
     let tier = ctx.tier;
     // per shard (64 shards)
@@ -425,6 +492,9 @@ pub fn run(ctx: &Ctx) {
         }
         for _ in 0..n1 / 30 {
             check_history(&gen_history(rng), st);
+        }
+        for _ in 0..2 {
+            w7_walk(rng, st, n2 / 8);
         }
     });
     let prev = std::panic::take_hook();
